@@ -111,6 +111,7 @@ type Sim struct {
 	Refetches      []*RefetchRec
 	quietReset     *ResetRec
 	quietRoot      *CReq
+	burstDone      bool
 	pendingAcc     []pendingAccess
 	connGone       map[int]int
 	tokenResetSubj map[string]bool
